@@ -136,6 +136,16 @@ pub fn exec(op: &str, a: &[Vec<u8>]) -> Option<Resp> {
             }
             Resp::Ok(verify_all(&pk, &a[1], &sig, &a[3], a[4][0] & 1 == 1))
         }
+        "sig.key_eq" => {
+            let (k1, k2) = (need!(b32(&a[0])), need!(b32(&a[1])));
+            match (Aff::decompress(&k1), Aff::decompress(&k2)) {
+                (Some(p), Some(q)) => {
+                    let e = (k1 == k2) as u8;
+                    Resp::Ok(vec![e, e, 1, (p == q) as u8])
+                }
+                _ => Resp::Rej,
+            }
+        }
         "sig.verify_sk" => {
             let seed = need!(b32(&a[0]));
             let sig = need!(b64(&a[2]));
